@@ -27,7 +27,8 @@ Inductive wev :=
 | WTake (w : nat) (pick_quit : bool)
 | WDone (w : nat)
 | WQuit
-| WDrainOne.
+| WDrainOne
+| WHandToDrain (id : N).     (* unbuffered pool only: a blocked Enqueue rendezvous with Drain's receive *)
 
 Inductive wout := OEnq (id : N) (ok : bool) | OStart (id : N) | ONone.
 
@@ -38,14 +39,30 @@ Fixpoint set_nth {A} (n : nat) (x : A) (l : list A) : list A :=
   | a :: r, S m => a :: set_nth m x r
   end.
 
+(* an idle worker is parked in its select: with an unbuffered channel (maxTasks = 0) a send can only
+   complete as a rendezvous with such a worker, which then runs the closure at once *)
+Fixpoint first_idle (ws : list wst) : option nat :=
+  match ws with
+  | [] => None
+  | WIdle :: _ => Some O
+  | _ :: r => match first_idle r with Some n => Some (S n) | None => None end
+  end.
+
 Definition wstep (s : pool) (ev : wev) : pool * wout :=
   match ev with
   | WEnqueue id pq =>
     let room := Nat.ltb (length (p_queue s)) (p_cap s) in
-    if p_quit s && (negb room || pq) then (s, OEnq id false)
+    let meet := match p_cap s with O => first_idle (p_workers s) | S _ => None end in
+    let can := room || match meet with Some _ => true | None => false end in
+    if p_quit s && (negb can || pq) then (s, OEnq id false)
     else if room then
       (mkPool (p_cap s) (p_queue s ++ [id]) (p_quit s) (p_workers s) (p_accepted s ++ [id]) (p_ran s), OEnq id true)
-    else (s, ONone)                                          (* blocked: full and not terminated *)
+    else match meet with
+         | Some w =>                                         (* rendezvous: the parked worker starts it *)
+           (mkPool (p_cap s) (p_queue s) (p_quit s) (set_nth w (WRun id) (p_workers s))
+                   (p_accepted s ++ [id]) (p_ran s ++ [id]), OEnq id true)
+         | None => (s, ONone)                                (* blocked: full and not terminated *)
+         end
   | WTake w pq =>
     match nth_error (p_workers s) w with
     | Some WIdle =>
@@ -66,6 +83,11 @@ Definition wstep (s : pool) (ev : wev) : pool * wout :=
     end
   | WQuit => (mkPool (p_cap s) (p_queue s) true (p_workers s) (p_accepted s) (p_ran s), ONone)
   | WDrainOne => (mkPool (p_cap s) (tl (p_queue s)) (p_quit s) (p_workers s) (p_accepted s) (p_ran s), ONone)
+  | WHandToDrain id =>
+    match p_cap s with
+    | O => (mkPool (p_cap s) (p_queue s) (p_quit s) (p_workers s) (p_accepted s ++ [id]) (p_ran s), OEnq id true)
+    | S _ => (s, ONone)
+    end
   end.
 
 Fixpoint wrun (s : pool) (tr : list wev) : pool * list wout :=
@@ -81,7 +103,7 @@ Definition stopped (s : pool) : Prop := p_quit s = true /\ forall w, In w (p_wor
 Fixpoint fresh_ids (s : pool) (tr : list wev) : Prop :=
   match tr with
   | [] => True
-  | ev :: r => match ev with WEnqueue id _ => ~ In id (p_accepted s) | _ => True end /\ fresh_ids (fst (wstep s ev)) r
+  | ev :: r => match ev with WEnqueue id _ | WHandToDrain id => ~ In id (p_accepted s) | _ => True end /\ fresh_ids (fst (wstep s ev)) r
   end.
 
 (* executable check of an observed run (harness): [runs] = (id, how often its closure ran),
@@ -92,3 +114,27 @@ Definition wk_check (runs : list (N * nat)) (enq : list (N * (bool * bool))) (la
   forallb (fun e => let '(id, (ok, afterq)) := e in
              (ok || match find (fun r => N.eqb (fst r) id) runs with Some r => Nat.eqb (snd r) 0 | None => true end)
              && (ok || afterq)) enq.
+
+(* what the harness would observe of a model run: per Enqueue call (id, returned nil, called after
+   close(quit)); whether a closure was started after Stop had returned *)
+Fixpoint wk_enqs (s : pool) (tr : list wev) : list (N * (bool * bool)) :=
+  match tr with
+  | [] => []
+  | ev :: r =>
+    match snd (wstep s ev) with
+    | OEnq id ok => (id, (ok, p_quit s)) :: wk_enqs (fst (wstep s ev)) r
+    | _ => wk_enqs (fst (wstep s ev)) r
+    end
+  end.
+Definition all_exited (s : pool) : bool :=
+  p_quit s && forallb (fun w => match w with WExit => true | _ => false end) (p_workers s).
+Fixpoint wk_late (s : pool) (tr : list wev) : bool :=
+  match tr with
+  | [] => false
+  | ev :: r =>
+    (all_exited s && match snd (wstep s ev) with OStart _ => true | _ => false end) || wk_late (fst (wstep s ev)) r
+  end.
+Definition count_occ_N (x : N) (l : list N) : nat := length (filter (N.eqb x) l).
+Definition wk_runs (s : pool) (ids : list N) : list (N * nat) := map (fun id => (id, count_occ_N id (p_ran s))) ids.
+Definition enq_ids (tr : list wev) : list N :=
+  flat_map (fun ev => match ev with WEnqueue id _ | WHandToDrain id => [id] | _ => [] end) tr.
